@@ -262,4 +262,19 @@ def run(repo, tier):
                     res.add(Finding('A2', s_.finfo.fullname, norm_stmt_text(s_.stmt), s_.loc,
                                     f'evaluating {f_.qualname} modifies the object stored in `self.{fld}` in place ({s_.describe()}): '
                                     f'every later read (after normalize/unnormalize) starts from the already rescaled values', {}))
+    from .C01 import bbox_rules
+    bbox_rules(repo, res)
+    from .common import run_axis
+    run_axis(repo, res, {'photutils.aperture.bounding_box'})
+    from .C10 import get_alias
+    d2_, _f2 = get_alias(repo)
+    vr = repo.functions.get('photutils.profiles.core.ProfileBase._validate_radii')
+    if vr is None:
+        raise AnalysisError('vanished anchor: ProfileBase._validate_radii')
+    shared = sorted(o for o in d2_.summary(vr).ret if o[0] in ('P', 'Pi') and o[1] != 'self')
+    res.oblige('SPEC', 'ProfileBase._validate_radii returns a private copy of the radii', not shared, nontrivial=True)
+    if shared:
+        res.add(Finding('SPEC', vr.fullname, 'radii copy', vr.loc,
+                        'ProfileBase._validate_radii may return the caller\'s `radii` array itself: the lazily evaluated radius, '
+                        'apertures and photometry then follow later edits of that array', {}))
     return res
